@@ -140,7 +140,8 @@ Definition tables_agree : bool :=
     && boolab_eqb (gen_type_boolab c) (type_boolab c)
     && boolab_eqb (gen_type_boolab_exact c) (type_boolab_exact c)
     && boolab_eqb (gen_meta_boolab c) (meta_boolab c)
-    && Nat.eqb (gen_enum_size c) (enum_size c)) all_cls
+    && Nat.eqb (gen_enum_size c) (enum_size c)
+    && cls_eqb (gen_meta c) (meta c)) all_cls
   && list_eqb boolab_eqb gen_true_boolabs true_boolabs
   && list_eqb boolab_eqb gen_false_boolabs false_boolabs
   && forallb (fun b => Nat.eqb (gen_boolab_value b) (boolab_value b)
